@@ -152,9 +152,20 @@ func intProgram[K commitments.HomomorphicCommitmentKey[K, *intcom.Message, *intc
 			case 'S':
 				a := regs[i]
 				s := cx.randInt(rng, 40)
-				m, e1 := key.MessageScalarOp(a.m, zInt(s))
-				w, e2 := key.WitnessScalarOp(a.w, zInt(s))
-				c, e3 := key.CommitmentScalarOp(a.c, zInt(s))
+				var m *intcom.Message
+				var w *intcom.Witness
+				var c *intcom.Commitment
+				var e1, e2, e3 error
+				if rng.Chance(1, 3) {
+					s = big.NewInt(int64(rng.Intn(201)) - 100)
+					m, e1 = commitments.MessageScalarOpSignedNumeric(key, a.m, zInt(s))
+					w, e2 = commitments.WitnessScalarOpSignedNumeric(key, a.w, zInt(s))
+					c, e3 = commitments.CommitmentScalarOpSignedNumeric(key, a.c, zInt(s))
+				} else {
+					m, e1 = key.MessageScalarOp(a.m, zInt(s))
+					w, e2 = key.WitnessScalarOp(a.w, zInt(s))
+					c, e3 = key.CommitmentScalarOp(a.c, zInt(s))
+				}
 				if e1 != nil || e2 != nil || e3 != nil {
 					fail = fmt.Sprint("ScalarOp: ", e1, e2, e3)
 					return
@@ -394,8 +405,11 @@ func intcomEquivocate(r *runner, cx *intCtx, i int) {
 	}
 	r.ask(fmt.Sprintf("IE %s %s %s %s %s %s %s %s %s %s", id, zh(cx.n), zh(s), zh(t), zh(cx.ord), zh(lambda), zh(m), zh(w), zh(m2), zh(w2.Value().Big())), func(out string) {
 		f := strings.Fields(out)
+		if len(f) > 2 && f[2] != "1" && m.Cmp(m2) != 0 {
+			r.res.Distribution["inteq-witness-outside-sampling-range"]++ // hiding, not C18: counted, not an alarm
+		}
 		if f[0] != "1" || f[1] != implOpen {
-			r.corr(id, "intcom-equivocate", fmt.Sprintf("implementation r''=%s open=%s; model: r'' of the form r + λ(m−m') + x·ord within the witness range: %s, open=%s", zh(w2.Value().Big()), implOpen, f[0], f[1]), cse,
+			r.corr(id, "intcom-equivocate", fmt.Sprintf("implementation r''=%s open=%s; model: r'' of the form r + λ(m−m') + x·ord: %s, open=%s", zh(w2.Value().Big()), implOpen, f[0], f[1]), cse,
 				"correspondence intcom Equivocate [model/Commit.v int_equivocate_ok]", implOpen != "1")
 		}
 	})
